@@ -3,7 +3,7 @@ from ..effects import rule_F6
 from ..pathrules import rule_T3, rule_T4, rule_T6
 from ..agree import rule_A2_A6
 from ..sampler_rules import rule_L3_L4, rule_L1_sampler, rule_L1d_transition
-from ..persist import rule_P4_sampler
+from ..persist import rule_P4_sampler_subset
 
 LEVEL_TEXT = ('Static phase-guard, who-may-write, extend-prefix and purity rules: bounds and '
               'shell records change only under `not explored`, explored is only ever set to '
@@ -21,7 +21,9 @@ def run(ctx):
     rule_T3(ctx)
     rule_T4(ctx)
     rule_A2_A6(ctx)
-    rule_P4_sampler(ctx)
+    rule_P4_sampler_subset(ctx, ('points', 'log_l', 'blobs', 'shell_t', 'bound', 'pop_shell', 'add_bound', 'first-batch',
+                            'update-shell', 'batch-checkpointed', 'optional-init') + ('shell_', '_discard_exploration', 'explored', 'discard_explora'),
+                           'the stored rows, the exploration boundary and the discard flag')
     ctx.floor('T6', 6, 'phase-guard obligations')
     ctx.floor('L3', 4, 'row extensions')
     ctx.floor('T4', 2, 'publication sites')
